@@ -65,3 +65,36 @@ Theorem c08_preprocess_is_expansion_on_the_page :
       expand_recurse pfnames lib opts fuel stk true page = Some (page_result lib page).
 Proof. exact preprocess_anywhere. Qed.
 Print Assumptions c08_preprocess_is_expansion_on_the_page.
+
+(* ... and for t one #if, #ifeq or #switch call whose branches or case values hold text and flat calls: under every path
+   below the depth limit (two frames are needed for the function itself) on which none of the called templates is being
+   expanded, the result is the one on the page: the chosen branch with its calls replaced (C04's rules). *)
+Theorem c08_preprocess_of_if_ifeq_switch_is_expansion_on_the_page :
+  forall pfnames lib opts,
+    o_parserfns opts = true -> o_tfn opts = [] -> o_pfn opts = [] ->
+    (forall cond more, if_calls_ok pfnames lib cond more = true ->
+      exists F, forall stk fuel, (length stk < 98)%nat -> forallb (fresh_items stk) more = true -> (F <= fuel)%nat ->
+        expand_recurse pfnames lib opts fuel stk true [T ((if_head ++ cond)%list :: more)]
+        = expand_recurse pfnames lib opts fuel [FTitle] true [T ((if_head ++ cond)%list :: more)] /\
+        expand_recurse pfnames lib opts fuel stk true [T ((if_head ++ cond)%list :: more)]
+        = Some (if_calls_result lib cond more)) /\
+    (forall x more, ifeq_calls_ok pfnames lib x more = true ->
+      exists F, forall stk fuel, (length stk < 98)%nat -> forallb (fresh_items stk) more = true -> (F <= fuel)%nat ->
+        expand_recurse pfnames lib opts fuel stk true [T ((ifeq_head ++ x)%list :: more)]
+        = expand_recurse pfnames lib opts fuel [FTitle] true [T ((ifeq_head ++ x)%list :: more)] /\
+        expand_recurse pfnames lib opts fuel stk true [T ((ifeq_head ++ x)%list :: more)]
+        = Some (ifeq_calls_result lib x more)) /\
+    (forall x cases, plain x = true -> forallb (case_calls_ok pfnames lib) cases = true ->
+      exists F, forall stk fuel, (length stk < 98)%nat -> forallb (fun kv => fresh_items stk (snd kv)) cases = true ->
+        (F <= fuel)%nat ->
+        expand_recurse pfnames lib opts fuel stk true [T ((switch_head ++ x)%list :: map mkcase cases)]
+        = expand_recurse pfnames lib opts fuel [FTitle] true [T ((switch_head ++ x)%list :: map mkcase cases)] /\
+        expand_recurse pfnames lib opts fuel stk true [T ((switch_head ++ x)%list :: map mkcase cases)]
+        = Some (add_newline (switch_calls_result lib (strip_i x) cases None))).
+Proof.
+  intros pfnames lib opts Hpf Htfn Hpfn. split; [|split].
+  - intros cond more Hok. exact (preprocess_if_anywhere pfnames lib opts cond more Hok Hpf Htfn Hpfn).
+  - intros x more Hok. exact (preprocess_ifeq_anywhere pfnames lib opts x more Hok Hpf Htfn Hpfn).
+  - intros x cases Hx Hok. exact (preprocess_switch_anywhere pfnames lib opts x cases Hx Hok Hpf Htfn Hpfn).
+Qed.
+Print Assumptions c08_preprocess_of_if_ifeq_switch_is_expansion_on_the_page.
